@@ -196,7 +196,7 @@ func c05CheckResults(c *wk.Ctx, label string, res *rig.SessionResult, execs map[
 		all = append(all, id)
 	}
 	for _, o := range res.Execs {
-		if o.Returned != 1 {
+		if atomic.LoadInt32(&o.Returned) != 1 {
 			continue // liveness is judged separately
 		}
 		e := execs[o.Spec.RunID]
@@ -413,7 +413,7 @@ func runV1Session(groups [][]rig.ExecSpec, c2sMode, s2cMode rig.Mode, seed uint6
 					o := &rig.ExecOutcome{Spec: ex}
 					res.Execs = append(res.Execs, o)
 					o.Result = cli.Execute(schema.Input{RunID: ex.RunID, ID: ex.StepID, InputData: ex.Input}, nil, nil)
-					o.Returned = 1
+					atomic.StoreInt32(&o.Returned, 1)
 				}
 			}
 		}
@@ -523,12 +523,12 @@ func runC05(c *wk.Ctx) {
 		c.Eval(wk.Hash64(fmt.Sprintf("%v|%v|%v|%d|%v", groups, c2s, s2c, seed, sched)), nexec >= 2 || c2s != rig.ModeSync || s2c != rig.ModeSync)
 		switch res.Monitor.Outcome {
 		case "inconclusive":
-			c.Inconclusive(fmt.Sprintf("%v: watchdog fired; running: %v", wit, res.Monitor.Verdict.RunningDescr))
+			c.Inconclusive(fmt.Sprintf("%v: watchdog fired; running: %v", wit, res.Monitor.Verdict.RunningDescr) + snapSummary(res.Monitor.Snap))
 			return
 		case "deadlock":
 			var un []string
 			for _, e := range res.Execs {
-				if e.Returned == 0 {
+				if atomic.LoadInt32(&e.Returned) == 0 {
 					un = append(un, e.Spec.RunID)
 				}
 			}
@@ -564,3 +564,11 @@ func runC05(c *wk.Ctx) {
 }
 
 func init() { register("C05", runC05) }
+
+// snapSummary renders the last snapshot of an inconclusive session (what every goroutine was doing).
+func snapSummary(s *rig.Snapshot) string {
+	if s == nil {
+		return ""
+	}
+	return "; goroutines: " + clipStr(fmt.Sprint(s.Summary()), 1500)
+}
